@@ -1025,7 +1025,7 @@ func c33(r *vkit.Run) {
 		r.SetMinDistinct(0)
 		return
 	}
-	n := envN(r.N(400, 6000))
+	n := envN(r.N(300, 4500))
 	for phase := 0; phase < 2; phase++ {
 		large := phase == 1
 		bfe_http2.VerifSetLargeConnRecvWindow(large)
